@@ -324,7 +324,7 @@ func (e *engine) pkgHandler(fn *ssa.Function) externalFn {
 		return nil
 	}
 	p := fn.Pkg.Pkg.Path()
-	if strings.HasPrefix(p, "github.com/rs/zerolog") || p == "log" || strings.HasPrefix(p, "go.opentelemetry.io/") {
+	if strings.HasPrefix(p, "github.com/rs/zerolog") || p == "log" || strings.HasPrefix(p, "go.opentelemetry.io/") || strings.HasPrefix(p, "github.com/grpc-ecosystem/go-grpc-middleware") {
 		return func(fr *frame, args []value) value { return opaqueResults(fn.Signature) }
 	}
 	if e.hpkg == fn.Pkg {
